@@ -105,7 +105,7 @@ def run_family(prop, invs, props, tier, seed, focus=None, signature_prefix="fami
     quick = tier == "quick"
     fam = "GFirst" if quick else "GFirst3"
     depth = 1 if quick else 2
-    stride = 7 if quick else 2
+    stride = 9 if quick else 2
     phase = seed % stride
     env = {"FAM_STRIDE": stride, "FAM_PHASE": phase}
     # 1. TLC, every schema of the family
@@ -155,7 +155,7 @@ def run_family(prop, invs, props, tier, seed, focus=None, signature_prefix="fami
     # 3. deeper simulated behaviours on random schemas
     cfgs = os.path.join(d, "sim.cfg")
     cfgmachine.write_cfg(cfgs, fam, 99, export=True, bound=False)
-    nsim, dsim = (120, 8) if quick else (3000, 12)
+    nsim, dsim = (80, 8) if quick else (3000, 12)
     sim = tlc.run("MC_Config.tla", cfgs, workers=1, simulate=nsim, depth=dsim, seed=seed + 3, keep=("INIT", "EDGE"))
     sedges, sinits = _normalise(sim.printed.get("EDGE", []), sim.printed.get("INIT", []), descs)
     lap("simulate")
